@@ -13,6 +13,8 @@ change" clause:
                                produces (stored there from values that are not parameters of the storing method)
   invalidators(F)            = methods that assign None / an empty container to self.F or call self.F.clear(), and their callers
   rule                       = every method of C (the constructor aside) that stores to an input is an invalidator
+                               (only for fields that have an invalidator outside the constructor: a field that is never emptied
+                               again is a lazily computed default, not a memo somebody meant to keep fresh)
 
 What is decided: the writer/invalidator relation inside the class.  Not decided: inputs owned by other objects, keys that are
 proxies of the arguments (a key that omits an argument cannot be told from one that determines it), quantised keys."""
@@ -143,14 +145,57 @@ def analyse_class(cnode: ast.ClassDef, new_attr):
             for attr, node, from_param in stores_of(methods[mn]):
                 if not from_param:
                     produced.add(attr)
-        inputs = set()
-        for mn in comp:
+        # inputs: the fields the *stored value* is computed from - backward slice of the fill values through the locals of the
+        # filling method (flow-insensitive), and everything read by the methods of the class that occur in the slice
+        # (a field that is merely defaulted lazily - `if self.F is None: self.F = <constant>` - has no inputs)
+        def fields_read(mn_, seen_):
+            m_ = methods[mn_]
+            me_ = m_.args.args[0].arg
+            got = set()
+            for n in ast.walk(m_):
+                if _self_attr(n, me_) and isinstance(n.ctx, ast.Load):
+                    if n.attr in methods:
+                        if n.attr not in seen_ and len(seen_) < 12:
+                            seen_.add(n.attr)
+                            got |= fields_read(n.attr, seen_)
+                    else:
+                        got.add(n.attr)
+            return got
+        raw = set()
+        for mn, node, _key in fill[F]:
             m = methods[mn]
             me = m.args.args[0].arg
-            for n in ast.walk(m):
-                if _self_attr(n, me) and isinstance(n.ctx, ast.Load) and n.attr not in methods and n.attr != F and n.attr not in caches and n.attr not in keyed \
-                        and n.attr not in produced:
-                    inputs.add(n.attr)
+            exprs = [node.value]
+            names = {n.id for n in ast.walk(node.value) if isinstance(n, ast.Name)}
+            for _ in range(6):
+                before_ = len(exprs)
+                for st in ast.walk(m):
+                    src_ = None
+                    if isinstance(st, (ast.Assign, ast.AugAssign, ast.AnnAssign)) and getattr(st, 'value', None) is not None:
+                        tg = st.targets if isinstance(st, ast.Assign) else [st.target]
+                        if any(isinstance(n, ast.Name) and n.id in names for t in tg for n in ast.walk(t)):
+                            src_ = st.value
+                    elif isinstance(st, (ast.For, ast.comprehension)):
+                        if any(isinstance(n, ast.Name) and n.id in names for n in ast.walk(st.target)):
+                            src_ = st.iter
+                    if src_ is not None and not any(src_ is e for e in exprs):
+                        exprs.append(src_)
+                        names |= {n.id for n in ast.walk(src_) if isinstance(n, ast.Name)}
+                if len(exprs) == before_:
+                    break
+            for e in exprs:
+                for n in ast.walk(e):
+                    if _self_attr(n, me) and isinstance(n.ctx, ast.Load):
+                        if n.attr in methods:
+                            raw |= fields_read(n.attr, {n.attr})
+                        else:
+                            raw.add(n.attr)
+        inputs = {a for a in raw if a != F and a not in caches and a not in keyed and a not in produced and a not in methods}
+        if not (inval - {'__init__'}):
+            # never emptied after construction: a value that is computed once on first use (a lazily defaulted setting), not a memo
+            # its author meant to keep fresh - staleness of such a field is not what this template decides
+            facts.append((F, [], [], sorted(keyed)))
+            continue
         facts.append((F, sorted(inputs), sorted(inval), sorted(keyed)))
         for mn, m in methods.items():
             if mn == '__init__' or mn in inval:
